@@ -23,7 +23,7 @@ RULE = ("grid world in {LineWorld, GridWorld, DiscreteWorld incl. zero-extent ax
 COMPONENTS = {"real": ["ECAgent.Environments.DiscreteWorld.add_cell_component / remove_cell_component / cells / get_cell",
                        "ConstantGenerator", "LookupGenerator", "LineWorld / GridWorld constructors", "pandas.DataFrame"],
               "stub": ["callable generators and source buffers are harness-built"]}
-PROBES = ["src_callable", "src_list", "src_ndarray_int", "src_ndarray_float", "src_const", "src_lookup_list",
+PROBES = ["array_source_in_another_memory_layout", "src_callable", "src_list", "src_ndarray_int", "src_ndarray_float", "src_const", "src_lookup_list",
           "src_lookup_nd", "alias_after_ndarray", "alias_after_list", "zero_extent_below_populated", "readd_removed_name",
           "remove_unknown_rejected", "lookup_1d", "lookup_2d", "lookup_3d", "get_cell_compared", "generator_object_reused", "readd_live_name_overwrites", "src_lookup_reuse",
           "src_lookup_rebind", "src_const_reuse", "src_const_tuple", "src_const_subclass", "lookup_mixed_text_and_numbers",
@@ -72,6 +72,26 @@ class PosConstant(ConstantGenerator):
         return self.value + pos[0] * 10000 + pos[1] * 100 + pos[2]
 
 
+def relayout(buf, how, ctx):
+    """The same values in another memory layout: what np.fromfile / np.frombuffer / slicing / memory maps hand over."""
+    if not how:
+        return buf
+    ctx.probe("array_source_in_another_memory_layout")
+    if how == "swapped":
+        return buf.astype(buf.dtype.newbyteorder("S"))           # non-native byte order (a big-endian raster file)
+    if how == "strided":
+        wide = np.zeros(2 * len(buf) + 1, dtype=buf.dtype)
+        wide[1::2] = buf
+        return wide[1::2]                                          # a non-contiguous view
+    if how == "readonly":
+        out = buf.copy()
+        out.flags.writeable = False
+        return out
+    if how == "narrow" and buf.dtype.kind == "i" and len(buf) and abs(buf).max() < 2 ** 31:
+        return buf.astype(np.int32)
+    return buf
+
+
 def generate(rng, tier):
     r = rng.random()
     if r < 0.2:
@@ -110,6 +130,9 @@ def generate(rng, tier):
         for _ in range(rng.randint(1, 6)):
             ops.insert(rng.randint(0, len(ops)), {"op": "other", "what": rng.choice(["add", "add", "remove", "remove", "remove_unknown"]),
                                                   "name": rng.choice(names), "own_model": rng.random() < 0.5})
+    for o_ in ops:       # memory layout of array sources (same values): other byte order, a strided view, a read-only buffer
+        if o_.get("src") in ("ndarray_int", "ndarray_float") and rng.random() < 0.4:
+            o_["layout"] = rng.choice(["swapped", "swapped", "strided", "readonly", "narrow"])
     return {"world": world, "ops": ops}
 
 
@@ -249,9 +272,11 @@ def execute(sc, ctx):
                 gen, vals = buf, list(buf)
             elif src == "ndarray_int":
                 buf = np.array([enc(serial, (0, i, 0)) for i in range(n)], dtype=np.int64)
+                buf = relayout(buf, op.get("layout"), ctx)
                 gen, vals = buf, [int(v) for v in buf]
             elif src == "ndarray_float":
                 buf = np.array([enc(serial, (0, 0, i)) + 0.5 for i in range(n)], dtype=float)
+                buf = relayout(buf, op.get("layout"), ctx)
                 gen, vals = buf, [float(v) for v in buf]
             elif src == "ndarray_datetime":
                 # an array of time stamps / durations (nanosecond unit): each cell holds ITS element, as a time stamp / duration
@@ -403,6 +428,8 @@ def execute(sc, ctx):
                 rec["buf"][:] = [-1] * len(rec["buf"])
                 ctx.probe("alias_after_list")
             else:
+                if not rec["buf"].flags.writeable:
+                    rec["buf"].flags.writeable = True      # (the owner of a read-only buffer unlocks it to change it)
                 rec["buf"][:] = -1
                 ctx.probe("alias_after_ndarray")
             ctx.event("overwrite", op["name"])
